@@ -9,6 +9,7 @@ ORACLES = {
     'value':     '  ora_value(OUT, &R);\n',
     'messages':  '  ora_messages(OUT, &R, 1);\n',
     'positions': '  ora_positions(OUT, &R);\n',
+    'trace':     '  ora_trace_hash(OUT, &R);\n',
     'silent':    '  if (OUT[O_OK]) CHECK(OUT[O_NMSG] == 0, "a successful non-verbose parse writes nothing");\n',
 }
 
@@ -22,11 +23,16 @@ class ParseCase:
         self.b = b
         self.maxmsg = b['nmsg'] + 1; self.maxred = max(b['nred'], 1) + 1; self.maxterm = max(b['nterm'], 1) + 1
         self.D = b['steps'] + 3
+        self.hashlog = 'trace' in self.asserts
+        if self.hashlog:
+            bs = lr1.bounds(g, self.lr, L, verbose=True)
+            self.maxst = bs['nstates_printed'] + 1; self.maxmsg = 1
         self.name = '%s_L%d_o%d%d%d%s' % (g.name, L, ws, nl, verbose, tag)
         self.defs = ['LEN=%d' % L, 'MAXMSG=%d' % self.maxmsg, 'MAXRED=%d' % self.maxred, 'MAXTERM=%d' % self.maxterm,
                      'OPT_WS=%d' % ws, 'OPT_NL=%d' % nl, 'OPT_VERBOSE=%d' % verbose,
                      'OPT_MASK=0', 'OPT_FIXED=%d' % (ws | (nl << 1) | (verbose << 2)),
                      'RSTEPS=%d' % (b['steps'] + 2), 'RSTK=%d' % (b['depth'] + 2)] + list(extra_defs)
+        if self.hashlog: self.defs += ['HASHLOG', 'MAXST=%d' % self.maxst]
         self.wd = wd
         cpp = wrapper or emit.parse_wrapper_cpp(g)
         self.unit = vlib.Unit(wd, 'u_' + self.name, cpp, defines=self.defs, ir2c_flags=(['--writeset'] if mode == 'writeset' else []))
@@ -38,12 +44,14 @@ class ParseCase:
     def bounds(self):
         L = self.L; g = self.g
         return {'context_parse': self.D, 'skip_whitespace': L + 2, 'find_char': 8, 'update': L + 2, 'erase': max(g.max_rhs, self.b['depth']) + 2,
-                'name_to_term': g.term_count + 1, 'dfa_match': L + 2, 'pop_stacks': 2}
+                'name_to_term': g.term_count + 1, 'dfa_match': L + 2, 'pop_stacks': 2, 'write_rule_diag_str': g.max_rhs + 1,
+                'flush': max(self.maxmsg, self.maxred, self.maxterm, getattr(self, 'maxst', 0)) + 1, 'h_run': L + 2}
     def fn_bounds(self):
         L = self.L
-        return {'ref_parse': self.b['steps'] + 3, 'ref_advance': L + 1, 'harness': L + 1}
+        big = max(self.maxmsg, self.maxred, self.maxterm, getattr(self, 'maxst', 0), len(self.lr.states) + 1) + 2
+        return {'ref_parse': self.b['steps'] + 3, 'ref_advance': L + 1, 'harness': L + 1, 'ora_.*': big, 'oracle': big}
     def default_unwind(self):
-        return max(self.maxmsg, self.maxred, self.maxterm, self.L, self.g.term_count, len(self.lr.states) + 1) + 2
+        return max(self.L, self.g.max_rhs) + 2
 
     def query(self, qid=None, witness=False, timeout=900, mem_gb=12, extra_defs=()):
         defs = list(self.defs) + list(extra_defs)
